@@ -5,6 +5,7 @@ import itertools
 import re
 
 from .. import gen
+from .. import scan_common as sc
 from ..core import Ctx, InfraError, Stream, digest, pmap
 from ..layers_common import impl_layer, layer_line, layer_rule_ops
 from ..proto import parse_answer, run_driver
@@ -17,6 +18,9 @@ RULE = (
     "exactly its modules, also mixed among the object layers; layers the rule does not mention of either kind; 12 shapes + "
     "2 'any layer' aliases; 1-2 object layers, given as string or list. Real LayerRule.assert_applies vs "
     "PtaModel.runLayerRuleOps (verdict, error class, message items with layer tags) vs PtaSpec.layerVerdict. "
+    "Also on SCANNED projects: random project trees whose files hold imports at every statement-list position (nested in "
+    "try/except/match/def/class/if/with/loops) and from-imports mixing object names and sub modules (absolute / relative); the real "
+    "LayerRule on the real scan vs model / specification on the graph of the imports the files contain (scan specification). "
     "distinct_nontrivial = distinct in-domain cases with an import that has an end in the subject layer."
 )
 
@@ -84,6 +88,12 @@ def make_case(rng, nodes, imps, pool=None, force_kinds=None):
 
 def judge(ctx, stream, cases):
     impl = pmap(impl_layer, cases, ctx.jobs, chunk=500)
+    judge_results(ctx, stream, cases, impl)
+
+
+def judge_results(ctx, stream, cases, impl, what="layer-rule verdict differs from the documented layer semantics"):
+    """impl: the real library's outcome per case ('PASS I=..' / 'FAIL:items I=..' / 'ERR:kind I=..'), judged against the
+    model and the specification evaluated on the case's graph (nodes, imps)"""
     ans = run_driver([layer_line(c) for c in cases])
     for c, i, a in zip(cases, impl, ans):
         a = parse_answer(a)
@@ -105,7 +115,7 @@ def judge(ctx, stream, cases):
         if in_domain and mcls != s:
             raise InfraError(f"layer model and specification disagree inside the domain: {layer_line(c)} -> {a}")
         if in_domain and icls != s:
-            ctx.violations.append({"kind": "property-violation", "what": "layer-rule verdict differs from the documented layer semantics",
+            ctx.violations.append({"kind": "property-violation", "what": what,
                                    "line": layer_line(c), "impl": i, "model": m, "spec": s, "case": {k: v for k, v in c.items() if not k.startswith("_")}})
             if len(ctx.violations) >= 5:
                 return
@@ -245,6 +255,192 @@ def redundant_spelling_stream(ctx, stream, n):
                 return
 
 
+# ----------------------------------------------------------------------------- layer rules on SCANNED projects
+# The layer semantics speak about the imports of the modules of a layer. For a scanned project these are the imports the
+# written files contain (C02): wherever in a file the statement stands and whatever mix of names it lists. The stream below
+# writes project trees whose files hold the full range of statement shapes, computes the import edges the files demand with
+# the scan SPECIFICATION (PtaSpec.scanImports, fed the files' ASTs), evaluates layer model / layer specification on that
+# expected graph and compares with the real LayerRule applied to the REAL scan of the written tree.
+_OBJECT_NAMES = ["func", "Klass", "CONST", "helper", "VERSION", "zz_missing"]
+
+
+def mixed_from_imports(rng, tree, relpath):
+    """(chain, statement) items for file `relpath`: from-imports of a package that list sub modules of the package AND names
+    that are no modules (objects of the package) in any order, 2-4 names, now and then aliased / parenthesised over several
+    lines; absolute or relative to the importing file's package; at a random statement-list position chain"""
+    mods = sorted({sc.module_of(q) for q, v in tree.items() if v is None or q.endswith(".py")})
+    ident = re.compile(r"[A-Za-z_]\w*(\.[A-Za-z_]\w*)*\Z")
+    mods = [m for m in mods if ident.match(m)]
+    children = {}
+    for m in mods:
+        if "." in m:
+            par, name = m.rsplit(".", 1)
+            if name != "__init__":
+                children.setdefault(par, []).append(name)
+    packages = [m for m in mods if m in children]
+    if not packages:
+        return []
+    importer = sc.module_of(relpath)
+    depth = importer.count(".")
+    out = []
+    for _ in range(rng.randint(1, 2)):
+        P = rng.choice(packages)
+        subs = rng.sample(children[P], min(len(children[P]), rng.randint(1, 2)))
+        objs = rng.sample(_OBJECT_NAMES, rng.randint(0, 2))
+        names = subs + objs
+        rng.shuffle(names)
+        names = [n + (" as q%d" % i if rng.random() < 0.15 else "") for i, n in enumerate(names)]
+        source = P
+        if depth >= 1 and rng.random() < 0.35:
+            # the same package written relative to the importing file, where that is possible
+            for level in rng.sample(range(1, depth + 1), depth):
+                base = ".".join(importer.split(".")[: depth - level + 1])
+                if P == base:
+                    source = "." * level
+                    break
+                if P.startswith(base + "."):
+                    source = "." * level + P[len(base) + 1:]
+                    break
+        if rng.random() < 0.2:
+            st = f"from {source} import (\n" + "".join(f"    {n},\n" for n in names) + ")"
+        else:
+            st = f"from {source} import " + ", ".join(names)
+        chain = [rng.choice(sc.POS_NAMES) for _ in range(rng.choice([0, 0, 1, 1, 2, 3]))]
+        out.append((chain, st))
+    return out
+
+
+def _impl_layer_on(ev, case) -> str:
+    """impl_layer of layers_common, on a given evaluable (a scanned one) instead of a constructed graph"""
+    from ..impl import LayerRule, err_kind, parse_message
+    from ..layers_common import LOPS, make_arch
+
+    late = case.get("late", 0)
+    ops = case["lops"]
+    try:
+        arch = make_arch(case["arch"][: len(case["arch"]) - late] if late else case["arch"])
+    except Exception as e:  # noqa: BLE001
+        return "ARCHERR:" + type(e).__name__
+    r = LayerRule()
+    for i, (op, arg) in enumerate(ops):
+        if late and i == 2:
+            try:
+                make_arch(case["arch"][len(case["arch"]) - late:], arch)
+            except Exception as e:  # noqa: BLE001
+                return "ARCHERR:" + type(e).__name__
+        try:
+            r = r.based_on(arch) if op == "based" else LOPS[op](r, arg)
+        except AssertionError:
+            raise
+        except Exception as e:  # noqa: BLE001
+            return f"ERR:{err_kind(e)} I={i}"
+    try:
+        r.assert_applies(ev)
+    except AssertionError as e:
+        return "FAIL:" + ";".join(parse_message(str(e))) + f" I={len(ops)}"
+    except Exception as e:  # noqa: BLE001
+        return f"ERR:{err_kind(e)} I={len(ops)}"
+    return f"PASS I={len(ops)}"
+
+
+def _scanned_layer_job(job):
+    """writes the tree, scans it, applies the job's layer rules to the scanned architecture.
+    -> (scan error or None, modules of the scan, its imports of an importer's own ancestor packages, outcome per rule)"""
+    from ..impl import err_kind, get_evaluable_architecture, graph_snapshot
+
+    tree, root, mp, cases = job
+    with sc.write_project(tree) as proj:
+        try:
+            ev = get_evaluable_architecture(proj.path(root), proj.path(mp))
+        except Exception as e:  # noqa: BLE001
+            return "ERR:" + err_kind(e), [], [], []
+        nodes, imps, _ = graph_snapshot(ev)
+        own_ancestors = [(u, v) for u, v in imps if u.startswith(v + ".")]
+        return None, nodes, own_ancestors, [_impl_layer_on(ev, c) for c in cases]
+
+
+def _layer_pool(rng, nodes, imps):
+    """2-6 pairwise unrelated modules to build layers from; modules that import / are imported are preferred three times
+    out of four (a layer rule over modules without imports says little), a module above all others is never taken"""
+    ends = sorted({x for e in imps for x in e})
+    rng.shuffle(ends)
+    rest = [n for n in nodes if n not in ends]
+    rng.shuffle(rest)
+    cand = ends + rest
+    if rng.random() < 0.25:
+        rng.shuffle(cand)
+    pool = []
+    for c in cand:
+        if all(gen.is_desc(d, c) for d in nodes):
+            continue
+        if all(not gen.related(c, d) for d in pool):
+            pool.append(c)
+    return pool[: rng.randint(2, 6)]
+
+
+def scanned_layer_stream(ctx, stream, n_trees, per_tree=4):
+    rng = ctx.rng("scanned-layers")
+    trees = []
+    while len(trees) < n_trees:
+        tree = sc.gen_tree(rng, extra_files=False)
+        placed = sc.fill_sources(rng, tree, externals=rng.random() < 0.5)
+        for p in sorted(placed):
+            if rng.random() < 0.5:
+                items = mixed_from_imports(rng, tree, p)
+                tree[p] += "".join(sc.place(st, ch) for ch, st in items)
+                placed[p] = placed[p] + items
+        dirs = sorted(p for p, v in tree.items() if v is None)
+        mp = "proj" if rng.random() < 0.8 else rng.choice(dirs)
+        trees.append((tree, mp, placed))
+    # what the written files demand: modules and imports by the scan specification (the base directory only matters to
+    # exclusion patterns, of which there are none but the default one)
+    ans = run_driver([sc.scan_line("scan", "/t/proj", t, "proj", mp) for t, mp, _ in trees])
+    jobs, metas = [], []
+    for (tree, mp, placed), a in zip(trees, ans):
+        S = sc.parse_snapshot(parse_answer(a).get("S", "ERR"))
+        if S is None:
+            stream.count("scan:specification undefined (relative import above the root)")
+            continue
+        nodes = sorted(S[0])
+        want = sorted((u, v) for u, v in S[1] if not u.startswith(v + "."))
+        cases = []
+        for _ in range(per_tree * 3):
+            if len(cases) >= per_tree:
+                break
+            pool = _layer_pool(rng, nodes, want)
+            c = make_case(rng, nodes, want, pool=pool) if len(pool) >= 2 else None
+            if c:
+                cases.append(c)
+        if not cases:
+            stream.count("scan:no two unrelated modules")
+            continue
+        jobs.append((tree, "proj", mp, cases))
+        metas.append((nodes, want, placed))
+    res = pmap(_scanned_layer_job, jobs, ctx.jobs, chunk=10)
+    flat, impl = [], []
+    for (tree, root, mp, cases), (nodes, want, placed), (err, real_nodes, own_anc, outs) in zip(jobs, metas, res):
+        if err:
+            stream.count("scan:" + err)
+            continue
+        if sorted(real_nodes) != nodes:
+            stream.count("scan:modules differ from the directory tree (C04's subject)")
+            continue
+        stream.count("scan:ok")
+        chains = {pos for items in placed.values() for ch, _ in items for pos in ch}
+        stream.count("trees with an import in an except handler / match case", int(any(("handler" in x or "case" in x) for x in chains)))
+        # imports of the importing file's own ancestor packages are outside C02's claim: taken as the scan reports them
+        nset = set(nodes)
+        edges = sorted(set(want) | {e for e in own_anc if e[0] in nset and e[1] in nset})
+        files = {p: v for p, v in tree.items() if v is not None}
+        for c, o in zip(cases, outs):
+            c = dict(c, imps=edges, files=files, module_path=mp,
+                     python="write `files`, ev = get_evaluable_architecture(<dir>/proj, <dir>/<module_path>); build the LayeredArchitecture `arch` and the rule `lops`; rule.assert_applies(ev)")
+            flat.append(c)
+            impl.append(o)
+    judge_results(ctx, stream, flat, impl,
+                  what="layer-rule verdict on a SCANNED project differs from the documented layer semantics applied to the imports its files contain")
+
+
 def run(ctx: Ctx):
     from ..rules_common import interpreter_modes
 
@@ -287,6 +483,11 @@ def run(ctx: Ctx):
     if not ctx.violations:
         s = Stream(ctx, "redundant spellings: a module listed twice in a layer, an object layer named twice, the subject layer among the exception layers")
         redundant_spelling_stream(ctx, s, ctx.size(3000, 40000))
+        s.finish()
+    if not ctx.violations:
+        s = Stream(ctx, "layer rules on SCANNED projects: files with imports at every statement position (try/except/match/def/class/if/with/loops, nested) "
+                        "and from-imports mixing object names and sub modules, absolute and relative; expected graph = imports the files contain (scan specification)")
+        scanned_layer_stream(ctx, s, ctx.size(500, 8000))
         s.finish()
     if not ctx.violations:
         s = Stream(ctx, "re-used LayerRule objects (regex layers resolved per architecture): second application vs a fresh object")
